@@ -189,6 +189,12 @@ fn font_level(b: &mut Battery<'_>, font: &mut Font<DynamicFontTableProvider<'_>>
     b.run("Font::has_embedded_images", || font.has_embedded_images());
     b.run("Font::lookup_glyph_image", || {
         let mut k = 0;
+        // every glyph id of the probe set at one size, then the boundary ids at every size and depth
+        for g in glyph_ids(n) {
+            if let Ok(Some(_)) = font.lookup_glyph_image(g, 300, BitDepth::ThirtyTwo) {
+                k += 1;
+            }
+        }
         for g in [0u16, 1, n.wrapping_sub(1), 65535] {
             for ppem in [0u16, 16, 65535] {
                 for d in [BitDepth::One, BitDepth::Two, BitDepth::Four, BitDepth::Eight, BitDepth::ThirtyTwo] {
